@@ -123,6 +123,8 @@ INVENTORY = [
     ("EventDataframeDataReader._clean_dataframe", "astype(int)", "non-integer event flag"),
     ("EventDataframeDataReader._clean_dataframe", "nunique()", "several events per subject"),
     ("EventDataframeDataReader._clean_dataframe", (".columns.tolist() !=",), "unexpected event columns"),
+    ("EventDataframeDataReader._clean_dataframe", ("$0.nb_events != ",), "configured number of events differs from the data"),
+    ("EventDataframeDataReader._clean_dataframe", ("not $0.nb_events",), "no event at all and no configured number"),
     ("JointDataframeDataReader._clean_dataframe", "index.equals", "subjects without visit or event"),
     ("JointDataframeDataReader._clean_dataframe", "-$0.tol_diff", "event before the last visit"),
     ("CovariateDataframeDataReader._clean_dataframe_covariates", "isna().any()", "missing covariate"),
@@ -179,9 +181,11 @@ def r2_refusals(ctx):
         # the refusal is unconditional: on the way to the raise no other test has to hold (beyond the confirmed context), and every test
         # that has to fail is itself a refusal (its branch raises)
         ctxt = CONTEXT.get(what, set())
+        ctxt = ctxt | {_re.sub(r"%\d+", "%", c_) for c_ in ctxt}
         for r, chain in cands:
             for h, g, lab in chain:
                 own = all(t in g for t in toks)
+                g = g if g in ctxt or ("not:" + g) in ctxt else _re.sub(r"%\d+", "%", g)
                 if lab and not own and g not in ctxt:
                     ctx.violation("C14.R2", f, cfg.stmt[h], f"the refusal of `{what}` now only fires when `{g[:90]}` also holds: malformed tables for which it does not are silently accepted",
                                   construct=f"refusal unconditional: {what}")
@@ -194,6 +198,8 @@ def r2_refusals(ctx):
 
 # confirmed positive context of a refusal (tests that legitimately have to hold as well), `not:<test>` = a test that has to fail whose branch does not raise
 CONTEXT = {
+    "configured number of events differs from the data": {"not:not $0.nb_events", "not:%[$0.event_bool_name].max() == 0", "not:% == 0"},
+    "no event at all and no configured number": {"%[$0.event_bool_name].max() == 0", "% == 0"},
     "negative integer identifier": {"pd.api.types.infer_dtype($1) == 'integer'"},
     "empty string identifier": {"pd.api.types.infer_dtype($1) == 'string'", "not:pd.api.types.infer_dtype($1) == 'integer'"},  # if integer: ... elif string: ...
     "event before the last visit": {"not:$1.reset_index().groupby('ID').max()[~($1.reset_index().groupby('ID').max()[$0.event_time_name] - $1.reset_index().groupby('ID').max()['TIME'] >= -$0.tol_diff)][$0.event_bool_name].sum() == 0"},
@@ -413,6 +419,27 @@ def r5_positional_access(ctx):
         ctx.anchor(b is not None and b["#0"] < b["#1"], "C14.R5", f, f.node, "row i is filled from data[i] (position in the reading order)", f"row filling of {fn}", construct=f"{fn}: row i from data[i]")
 
 
+def r6_configured_event_count(ctx, rid="C14.R6"):
+    """The number of event types of a joint dataset fixes the width of every individual's event arrays: when the caller configured it, it
+    is never replaced by what the cohort happens to contain (one individual's arrays would depend on the other individuals' events)."""
+    ctx.rule(rid, "a configured number of events is never overwritten from the data (writes of self.nb_events only when none was given)", 1)
+    n = 0
+    for f in _reader_funcs(ctx):
+        if f.name == "__init__":
+            continue
+        cfg = CFG(f.node)
+        cn = Canon(f.node)
+        for nid, st in cfg.stmt.items():
+            if isinstance(st, (ast.Assign, ast.AugAssign)) and any(U(t) == "self.nb_events" for t in store_targets(st)):
+                n += 1
+                guards = [(cn.text(cfg.stmt[h].test), lab) for h, lab in cfg.if_guards(nid)]
+                ok = any((g in ("not $0.nb_events", "$0.nb_events is None", "$0.nb_events in (None, 0)") and lab) or (g in ("$0.nb_events", "$0.nb_events is not None") and not lab) for g, lab in guards)
+                ctx.check(ok, rid, f, st, "inferred from the data only when no number was configured",
+                          f"`{U(st)[:60]}` replaces a configured number of events by the one seen in the data: the width of each individual's event arrays then depends on the other individuals of the cohort")
+    if n == 0:
+        ctx.ok(rid, (f"{PKG}.event_dataframe_data_reader", "EventDataframeDataReader"), None, "the number of events is never inferred outside the constructor", construct="writers of nb_events")
+
+
 # validators each concrete reader runs on every path of read() (computed from the code, confirmed by reading, frozen here)
 MUST_RUN = {
     "VisitDataframeDataReader": ["AbstractDataframeDataReader._check_ID", "AbstractDataframeDataReader._clean_index", "AbstractDataframeDataReader._clean_numeric_data",
@@ -502,6 +529,7 @@ def rules(ctx):
     r3_ordering(ctx)
     r2b_infinite_time(ctx)
     r5_positional_access(ctx)
+    r6_configured_event_count(ctx)
     r4_validators_run(ctx)
     ctx.trust("pandas copy(deep=True), groupby(sort=False), round, is_unique semantics; bisect")
 
